@@ -18,10 +18,10 @@ RULE = ('Generated library (EOL 0-3 dB, padding, connectors, power/gain mode, au
         'RamanFiber spans in a sub-check) x generated SimParams (Raman flag/method/order/resolutions, NLI method, computed '
         'channels) x 1-3 export -> reload -> redesign rounds. Non-trivial = design changed something (split, padding, model '
         'selection, VOA) and >=2 rounds. distinct = sha1 of the case JSON.')
-ASSUMPTIONS = ['exported numbers are compared with |delta| <= 1e-6 (export rounds gains/lengths to 6 decimals)',
+ASSUMPTIONS = ['exported numbers are compared with |delta| <= 2.5e-6 (export rounds gains/lengths to 6 decimals; a gain recomputed from rounded exported inputs and rounded again may move by one unit of the last digit)',
                'receiver figures of round 1 and round k are compared within 1e-3 dB (export rounds gains to 1e-6 dB and loss coefficients to 1e-6 dB/km)']
 
-TOL = 1e-6
+TOL = 2.5e-6   # two units of the last exported digit: a value recomputed from rounded inputs and rounded again
 
 
 @st.composite
